@@ -95,6 +95,11 @@ BuildMism(e) ==
       outs == Outcomes(c)
       exp_size == Size(c) IN
   (IF e.size # exp_size THEN {"size.announced"} ELSE {})
+  \* TCP option areas: accepted up to 40 bytes (the size grows by the area padded to a multiple of four), refused beyond with the size required
+  \cup UNION {LET t == e.topt[i]  pad == ((t[2] + 3) \div 4) * 4 IN
+              IF t[2] <= 40 THEN (IF t[3] # "ok" \/ t[4] # pad THEN {"tcp.options_rejected_or_size"} ELSE {})
+              ELSE (IF t[3] # "err" \/ t[4] # t[2] THEN {"tcp.options_too_long_accepted_or_size"} ELSE {})
+              : i \in 1..Len(e.topt)}
   \cup (IF e.write.k \notin outs THEN {"verdict:" \o e.write.k} ELSE {})
   \cup (IF e.vec.k # e.write.k \/ e.slice.k # e.write.k THEN {"sinks.verdicts_differ"} ELSE {})
   \cup (IF e.write.k = "ok" THEN
